@@ -1123,6 +1123,44 @@ fn native_spec() {
                 println!("SPEC-REPLAY MISMATCH target=validate_phases case=subcommand_required {argv:?}: {got:?}, expected {want:?}");
             }
         }
+    } else if target == "requires_owner" {
+        // C03/C10: a conditional requirement (`requires_if`) of a transitively required argument is decided
+        // by THAT argument's value, never by the value of the argument the walk started from
+        for (va, vb) in [("x", "y"), ("q", "x"), ("x", "x"), ("q", "y")] {
+            for depth in [1usize, 2] {
+                let mut cmd = Command::new("p")
+                    .arg(Arg::new("a").long("a").action(ArgAction::Set).requires(if depth == 1 { "b" } else { "m" }))
+                    .arg(Arg::new("m").long("m").action(ArgAction::SetTrue).requires("b"))
+                    .arg(Arg::new("b").long("b").action(ArgAction::Set).requires_if("x", "c"))
+                    .arg(Arg::new("c").long("c").action(ArgAction::SetTrue));
+                let mut argv = vec!["p", "--a", va, "--b", vb];
+                if depth == 2 {
+                    argv.push("--m");
+                }
+                let want = if vb == "x" { Some(ErrorKind::MissingRequiredArgument) } else { None };
+                let got = cmd.try_get_matches_from_mut(argv.clone()).err().map(|e| e.kind());
+                if got != want {
+                    println!("SPEC-REPLAY MISMATCH target=requires_owner case=requires_if on a transitively required argument (depth {depth}) {argv:?}: {got:?}, expected {want:?}");
+                }
+            }
+        }
+        // unconditional chains are still followed to the end, and the start argument's own condition uses its own value
+        let cmd = Command::new("p")
+            .arg(Arg::new("a").long("a").action(ArgAction::Set).requires_if("x", "b"))
+            .arg(Arg::new("b").long("b").action(ArgAction::SetTrue).requires("c"))
+            .arg(Arg::new("c").long("c").action(ArgAction::SetTrue));
+        for (argv, want) in [
+            (vec!["p", "--a", "x"], Some(ErrorKind::MissingRequiredArgument)),
+            (vec!["p", "--a", "x", "--b"], Some(ErrorKind::MissingRequiredArgument)),
+            (vec!["p", "--a", "x", "--b", "--c"], None),
+            (vec!["p", "--a", "y"], None),
+            (vec!["p", "--b"], Some(ErrorKind::MissingRequiredArgument)),
+        ] {
+            let got = cmd.clone().try_get_matches_from(argv.clone()).err().map(|e| e.kind());
+            if got != want {
+                println!("SPEC-REPLAY MISMATCH target=requires_owner case=chain {argv:?}: {got:?}, expected {want:?}");
+            }
+        }
     } else if target == "subcommand_dispatch_guard" {
         // C09: a value of a multi-value option / positional that spells a subcommand name stays a value (unless subcommand_precedence_over_arg)
         for prec in [false, true] {
